@@ -31,6 +31,23 @@ ALLOW = ("bounds", "scaling", "proj", "soft", "hard", "npt", "growing", "regress
 
 
 def mutate(rng, prob, kw, d):
+    if kw.get("scaling_within_bounds") and "h" not in kw and rng.random() < 0.3:
+        # a regulariser together with internal scaling (the base generator keeps them apart): h must always see the user's
+        # coordinates, also where a stored or saved objective is recomputed
+        lam = float(10 ** rng.uniform(-2, 0))
+        kw["h"] = lambda x, lam=lam: lam * float(np.sum(np.abs(x)))
+        kw["lh"] = lam * float(np.sqrt(prob["n"]))
+        kw["prox_uh"] = lambda x, u, lam=lam: np.sign(x) * np.maximum(np.abs(x) - lam * u, 0.0)
+        kw["maxfun"] = min(kw["maxfun"], 60)
+        d["maxfun"] = kw["maxfun"]
+        d["regu"] = lam
+    up0 = kw.get("user_params") or {}
+    if up0.get("regression.num_extra_steps") and rng.random() < 0.4:
+        # as many (or more) extra regression steps as there are interpolation points: the documented cap npt-1 must keep the
+        # iterate's own row out of the points that are moved
+        up0["regression.num_extra_steps"] = int(kw.get("npt", prob["n"] + 1)) + int(rng.integers(0, 2))
+        d["regression"] = up0["regression.num_extra_steps"]
+        d["user_params"] = dict(up0)
     # the rare exits: two projections with x0 near an intersection, tight trust regions
     force = (not d.get("proj")) and ("bounds" not in kw) and kw.get("h") is None and rng.random() < 0.15
     if force or (d.get("proj") and rng.random() < 0.7):
